@@ -489,7 +489,7 @@ def build_input(cfg, GeoBox, wrap_xr):
     ax, ns, dt = cfg["axis"], cfg["ns"], np.dtype(cfg["dtype"])
     gbox = mk_gbox(random.Random(cfg["pixseed"]), ny, nx, GeoBox, dyadic=cfg.get("dyadic", True))
     cfg["_crs_spec"] = mk_gbox.last_spec
-    prng = np.random.default_rng(cfg["pixseed"])
+    prng = np.random.default_rng(cfg.get("dataseed", cfg["pixseed"]))  # (dataseed: other pixels on the same grid)
     shp = (ny, nx) if ax == "YX" else ((ny, nx, ns) if ax == "YXS" else (ns, ny, nx))
     if dt.kind == "f":
         pix = prng.normal(size=shp).astype(dt)
@@ -624,6 +624,62 @@ def write_together(cfgs, workdir: str, tags):
     except Exception as e:  # pylint: disable=broad-except
         return (f"save-cog-raises:{type(e).__name__}@joint-compute", f"{type(e).__name__}: {str(e)[:200]}")
     return None
+
+
+def joint_minimal(R: Run, rng: random.Random, workdir: str, k: int):
+    """2-3 saves computed in ONE dask.compute whose differences are reduced to the minimum, one kind at a time: only the
+    directory differs (same base name, same parts-directory name, same pixels, same options → identical headers), directory
+    + pixel data, directory + one writer option; stats on and off.  dask merges tasks with equal keys, so whatever tells two
+    saves apart must reach the task names.  Oracle: the value returned for save j is path j, every destination exists and
+    decodes (GDAL and tifffile, full e2e judgement) to ITS OWN source pixels."""
+    _, _, T, GeoBox, wrap_xr = _imp()
+    base = gen_cfg(rng, big=False)
+    base.update(shape=[rng.randint(17, 150), rng.randint(17, 150)], dtype=rng.choice(DTYPES), comp=rng.choice(["deflate", "zstd"]), ckw={},
+                level=None, predictor=None, blocksize=rng.choice([[16], [32, 16], [64]]), bs_container="list", cargs_route=False,
+                recompute=False, dst_state="fresh", irregular=None, byteorder="=", nodata=rng.choice([None, 7]), dyadic=True,
+                stats=rng.random() < 0.5, chunks=[rng.choice([16, 32, 64]), rng.choice([16, 32, 64])],
+                spill_sz=rng.choice([None, 1, 5000]), wpc=rng.choice([None, 2]))
+    if base["axis"] == "YX":
+        base["ns"] = 1
+    if base["axis"] == "SYX" and base["ns"] == base["shape"][0] == base["shape"][1]:
+        base["shape"][1] += 1
+    n = rng.choice([2, 2, 3])
+    kind = rng.choice(["dir-only", "dir+data", "dir+data", "dir+option"])
+    cfgs = [dict(base, shape=list(base["shape"])) for _ in range(n)]
+    for j in range(1, n):
+        if kind == "dir+data" and not (n == 3 and j == 1 and rng.random() < 0.5):  # mixing identical and different pixel data
+            cfgs[j]["dataseed"] = base["pixseed"] + 1000 + j
+        elif kind == "dir+option":
+            opt = rng.choice(["spill_sz", "wpc", "bigtiff", "level"])
+            cfgs[j][opt] = {"spill_sz": rng.choice([1, 20000]), "wpc": 3, "bigtiff": False, "level": 9}[opt] if cfgs[j].get(opt) in (None, True) else None
+    name = rng.choice(["B04", "cog", "out"])
+    dirs = [os.path.join(workdir, f"j{k}", sub) for sub in ("sceneA", "sceneB", "sceneC")[:n]]
+    fns = [os.path.join(d_, f"{name}.tif") for d_ in dirs]
+    case = {"fn": "joint compute, minimal differences", "kind": kind, "cfgs": cfgs, "paths": [os.path.relpath(f_, workdir) for f_ in fns]}
+    sig = f"e2e|joint-minimal|{kind}|stats={base['stats']}"
+    try:
+        with dask_cfg(base):
+            futs = []
+            for cfg, d_, fn in zip(cfgs, dirs, fns):
+                os.makedirs(d_, exist_ok=True)
+                xx, _, _, skw = build_input(cfg, GeoBox, wrap_xr)
+                futs.append(T.save_cog_with_dask(xx, fn, **dict(skw)))
+            res = with_timeout(240.0, lambda: compute_with(futs, sched_of(base)))
+    except Exception as e:  # pylint: disable=broad-except
+        R.oracle(False, f"save-cog-raises:{type(e).__name__}@joint-compute", case, f"{type(e).__name__}: {str(e)[:200]}", sig=sig)
+        shutil.rmtree(os.path.join(workdir, f"j{k}"), ignore_errors=True)
+        return
+    bad = []
+    for j, (r_, fn) in enumerate(zip(res, fns)):
+        if str(r_) != fn:
+            bad.append(f"save {j} returned {os.path.relpath(str(r_), workdir)!r}, its destination is {os.path.relpath(fn, workdir)!r}")
+        if not os.path.exists(fn):
+            bad.append(f"destination {os.path.relpath(fn, workdir)!r} of save {j} was never written")
+    R.oracle(not bad, "joint-compute-wrong-or-missing-file", case, "; ".join(bad[:4]), sig=sig)
+    if not bad:
+        for j, (cfg, d_) in enumerate(zip(cfgs, dirs)):
+            run_e2e(R, cfg, d_, name, precomputed=True)
+    shutil.rmtree(os.path.join(workdir, f"j{k}"), ignore_errors=True)
 
 
 def e2e(cfg, workdir: str, tag: str, precomputed: bool = False, shared=None):
@@ -1637,6 +1693,16 @@ def run(R: Run):
                     R.corr(f"c05 patch {list_s(ms, meta_s)} {hsz} {obs}", lambda: info_s(tags), sig="handoff|offsets")
                 os.unlink(d)
             R.oracle(not bad, bad[0][0] if bad else "handoff", case, "; ".join(w for _, w in bad[:3]), sig="handoff")
+
+        # ---- joint computes whose members differ as little as possible (only the directory / + data / + one option)
+        t_j = time.time()
+        for k in range(R.pick(24, 300)):
+            if time.time() - t_j > R.pick(14, 200):
+                break
+            try:
+                joint_minimal(R, rng, workdir, k)
+            except Exception:  # pylint: disable=broad-except
+                R.oracle(False, "joint-minimal-harness-exception", {"k": k}, traceback.format_exc()[-600:], sig="e2e|joint-minimal")
 
         # ---- sequences of saves that RE-USE the caller's option objects (one compressionargs dict, one blocksize list):
         # every file must come out as with fresh arguments (a level / LERC tolerance given for one save must not stick),
